@@ -1,7 +1,5 @@
 CONSTANTS
-  MaxIds = 3
-  MaxInt = 3
-  MaxExt = 1
+  Slots = 4
   MaxLinks = 2
 INIT GenInit
 NEXT GenNext
